@@ -45,3 +45,10 @@ add('C18', 'differential + history-based property testing (covering set over all
     'and emitted issuer / issuer-fingerprint / PKESK ids must name the component that acted (reference verification).',
     'Trusted: hashlib SHA-1; refpgp.keys public-key body parser/encoder.',
     'DESIGN.md 4/C18')
+add('C20', 'property-based testing (Hypothesis + covering matrix) with a reference grammar recogniser as validity oracle, export/import round trip, and reference-built foreign messages',
+    'Messages built through PGPMessage.new/sign (content classes incl. empty, UTF-8, binary, encoding hints; file name and time via file=True; 4 compressions; 0-4 signers of '
+    '4 algorithms in any order with equal or differing times; binary/armored) are parsed by refpgp.grammar (11.3 derivability, one-pass/signature pairing in reverse order, '
+    'last flag only on the final one-pass packet, compression around the whole sequence, octet-exact literal body) and re-imported (content, filename, time, format, '
+    'compression, signature multiset, signatures still verify); foreign messages with old/partial/indeterminate headers and each compression must import with identical content.',
+    'Trusted: refpgp.grammar/wire, zlib/bz2 (shared). Signature validity of text-format literals is decided in C02.',
+    'DESIGN.md 4/C20')
